@@ -38,7 +38,7 @@ def run(ctx):
     fns = [f for f in functions_of(repo, ["xgi.drawing"]) if f.fq not in OUT_OF_SCOPE]
     for fq, why in OUT_OF_SCOPE.items():
         res.info.append({"scoped_out": fq, "reason": why})
-    run_kinds(ctx, res, PROP, fns, 60, 8)
+    run_kinds(ctx, res, PROP, fns, 60, 8, floor_functions=10)
     if ctx.only:
         return res
     lay = repo.modules.get("xgi.drawing.layout")
@@ -326,7 +326,8 @@ def key_source(fn, e, hname, depth=0, edges=False, repo=None, self_name=None):
                     if isinstance(a, ast.Name) and a.id == hname and i < len(tgt.params):
                         rets = [r for r in own_statements(tgt.node) if isinstance(r, ast.Return) and r.value is not None]
                         if rets:
-                            vs = [key_source(tgt, r.value, tgt.params[i], depth + 1, edges, repo) for r in rets]
+                            # (pos, G): the positions come first, as in the layouts' own returns
+                            vs = [key_source(tgt, r.value.elts[0] if isinstance(r.value, ast.Tuple) and r.value.elts else r.value, tgt.params[i], depth + 1, edges, repo) for r in rets]
                             bad = [v for v in vs if v[0] is not True]
                             return (bad[0][0], f"{tgt.name}: {bad[0][1]}") if bad else (True, f"{tgt.name}: {vs[0][1]}")
         return False, f"result of `{unparse(e.func, 30)}`"
